@@ -85,7 +85,7 @@ def simple_check(prop, harness, level, rule, assumptions, trusted, gens=("v2", "
 C20 = simple_check("C20", "c20", "model_checking",
     rule="every directory tree of the bounded grammar (file kinds G=x.gr.go, M=manifest, U=user.go, N=notes.txt, B=y.gr.go.bak; sub-directories as multisets of smaller trees; budgets per level in sub_checks.bounds) is materialised on tmpfs, cleaned with the real CleanTargetDir, compared with a set-based reference model, and cleaned again (idempotence); states = trees, transitions = CleanTargetDir calls; a class is (target mode, removal outcome)",
     assumptions=["entry kinds are regular files and directories (no symlinks, no unreadable directories)",
-                 "a manifest file in a nested directory is don't-care (the statement does not say whose manifest it is)",
+                 "a manifest is generator-owned at every depth (generation with a package root writes it below the target, and cleaning applies the same rules at every level)",
                  "directories that held no file at all before cleaning are don't-care (the pinned test removes them)",
                  "regeneration after cleaning is checked by C12's generator runs, not here"],
     trusted=["tmpfs file system semantics", "refclean model in harness/c20"])
